@@ -71,6 +71,18 @@ def thresholder_consumers():
     cons.append(("DynamicThresholder(LLR)", lambda x: T.DynamicThresholder(input_type=L)(x, reset=True), {}))
     cons.append(("SoftBitEnsembleThresholder(LLR)", lambda x: T.SoftBitEnsembleThresholder([T.LLRThresholder(), T.WeightedThresholder(weights=1.0, input_type=L),
                                                                                               T.HysteresisThresholder(input_type=L)])(x), {"minmag": 0.5}))
+    # the documented plain-string form of the mode argument, and objects created by name through the model registry (not for the fixed and
+    # minimum-distance thresholders: their LLR mode is a recorded finding whatever the form)
+    from kaira.models.registry import ModelRegistry as R
+    cons.append(("AdaptiveThresholder(LLR,mean,str)", lambda x: T.AdaptiveThresholder(method="mean", input_type="llr")(x), {"equal_mag": True}))
+    cons.append(("HysteresisThresholder(LLR,str)", lambda x: T.HysteresisThresholder(input_type="llr")(x, reset_state=True), {"minmag": 0.5}))
+    cons.append(("WeightedThresholder(LLR,str)", lambda x: T.WeightedThresholder(weights=1.0, input_type="llr")(x), {}))
+    cons.append(("DynamicThresholder(LLR,str)", lambda x: T.DynamicThresholder(input_type="llr")(x, reset=True), {}))
+    cons.append(("AdaptiveThresholder(LLR,mean,registry)", lambda x: R.create("adaptive_thresholder", method="mean", input_type="llr")(x), {"equal_mag": True}))
+    cons.append(("HysteresisThresholder(LLR,registry)", lambda x: R.create("hysteresis_thresholder", input_type="llr")(x, reset_state=True), {"minmag": 0.5}))
+    cons.append(("DynamicThresholder(LLR,registry)", lambda x: R.create("dynamic_thresholder", input_type="llr")(x, reset=True), {}))
+    cons.append(("WeightedThresholder(LLR,registry)", lambda x: R.create("weighted_thresholder", weights=1.0, input_type="llr")(x), {}))
+    cons.append(("LLRThresholder(registry)", lambda x: R.create("llr_thresholder")(x), {}))
     cons.append(("llr_to_bits", lambda x: llr_to_bits(x), {}))
     cons.append(("sign_to_bin", lambda x: sign_to_bin(torch.sign(x)), {}))
     return cons
